@@ -330,6 +330,10 @@ def fold(ctx, res, props, corr_name):
                     ctx.violations.append({"sig": f"C10 gap-resend-differs model={gm} impl={gi}", "detail": f"gap-resend-differs: after this history the session must ask for a resend {gm} (BeginSeqNo, EndSeqNo in hex; session model, theorem C10_gap), the implementation sent {gi}",
                                            "replay": {"ops": hist[-60:], "expected": [want], "model": [got], "harness": res.get("harness"), "kind": "gap-resend-differs"}})
             if ctx.prop == "C05":
+                ni, nm = [m.get("34") for m in impl], [m.get("34") for m in model]
+                if len(ni) == len(nm) and ni != nm:
+                    ctx.violations.append({"sig": f"C05 sequence-numbers-differ model={nm} impl={ni}", "detail": f"sequence-numbers-differ: the messages sent here must carry MsgSeqNum {nm} (hex digits; numbering continues from the stored counter: session model, theorem C05_sequential), the implementation sent {ni}",
+                                           "replay": {"ops": hist[-60:], "expected": [want], "model": [got], "harness": res.get("harness"), "kind": "sequence-numbers-differ"}})
                 ii = [(m.get("49"), m.get("56")) for m in impl]
                 im = [(m.get("49"), m.get("56")) for m in model]
                 if len(ii) == len(im) and ii != im:
